@@ -121,3 +121,28 @@ claim("C11", "generated item-definition trees (depth <= 3) with conforming value
       "typed output variables of decisions, knowledge models and services show the coercion.",
       "Trusts pbt/oracles/itemdef_ref.py (+ C16's reference coercion). Extra context entries, allowed values on referencing definitions and "
       "on outputs are labelled and not asserted.")
+
+claim("C12", "fault enumeration: every single structural fault (18 fault classes: element/attribute/text delete, duplicate, empty, swap, copy; href and typeRef retargeting to missing/self/ancestor/other kinds) at every position of shipped and generated models + sampled fault pairs and byte corruption, on both builds; validity predicate oracle; libFuzzer campaign on model_any in the thorough tier",
+      "Fault enumeration: the quick tier enumerates all single faults of a seed-rotated subset of the 150 shipped models and of "
+      "generated models completely (per-class counts in the evidence), the thorough tier all single faults of all files; every probe "
+      "parses, builds and evaluates every invocable with an empty, a typical and a wrong-typed input; a panic, a confirmed process "
+      "death or a confirmed hang is a violation.",
+      "A death is confirmed alone in a fresh driver, a hang by 3 isolated re-runs (else exit 2). Panic signatures are keyed on crate path, "
+      "enclosing function and statement text so that line shifts do not create false alarms.",
+      level="fault_enumeration")
+
+claim("C18", "generated request histories against the real service (definitions operations, evaluations, TCK round trips, 96 kinds of malformed request interleaved) judged by a strict JSON reader, in-process evaluation of the same value and the reference workspace model",
+      "Exploration: thousands of request sequences against a service process started from the working tree; every body must be one "
+      "well-formed JSON document with data or errors, data must decode to the value the same evaluation yields in process, typed TCK "
+      "values must round-trip, the workspace must follow the reference model, and after every malformed request the next valid one "
+      "must be answered correctly.",
+      "Assumes the evaluated value is the one the same evaluation yields in process (driver probe). A request without an answer is "
+      "replayed on a fresh server before it counts.")
+
+claim("C20", "generated thread plans (2..16 threads x 20..200 calls, barrier/yield/spin/skew/pinning perturbation) on one shared evaluator compared call by call with the sequential results; deadlock watchdog with 3 re-runs; ThreadSanitizer build of the same workload in the thorough tier",
+      "Exploration of schedules by repeated perturbed runs: every concurrent result must equal the sequential result of the same call, "
+      "the sequential pass afterwards must be unchanged (no poisoned lock), all threads must join before the watchdog; the thorough "
+      "tier additionally runs the workload under ThreadSanitizer, where a reported data race is a violation even when values are right.",
+      "This family does not own the scheduler: interleavings are sampled, not enumerated, and first-use races of lazily initialised "
+      "globals are not exercised (the driver evaluates every call sequentially first). If the sanitizer build cannot be produced the "
+      "evidence says so and no violation is raised for tooling.")
